@@ -990,10 +990,12 @@ def rule_ffi(rep: Report, repo: Repo, cu: CUnit) -> None:
                       else 'attribute not defined by the C type', site)
     # result tuple order
     names = None
+    from ..pyfacts import resolve_names as _rn
     for st in ast.walk(fn):
-        if isinstance(st, ast.Assign) and isinstance(st.targets[0], ast.Tuple) and isinstance(st.value, ast.Call) \
-                and dotted(st.value.func) == 'core.run':
-            names = [norm(e) for e in st.targets[0].elts]
+        if isinstance(st, ast.Assign) and isinstance(st.targets[0], ast.Tuple):
+            v_ = _rn(fn, st.value, allow_calls=True, depth=1) if isinstance(st.value, ast.Name) else st.value      # `result = core.run(..)` first
+            if isinstance(v_, ast.Call) and dotted(v_.func) == 'core.run':
+                names = [norm(e) for e in st.targets[0].elts]
     bv = None
     for c in [x for x in walk(cu.body('build_run_result')) if x.get('kind') == 'CallExpr' and 'Py_BuildValue' in callee(x)]:
         a = call_args(c)
@@ -1009,7 +1011,8 @@ def rule_ffi(rep: Report, repo: Repo, cu: CUnit) -> None:
     # device adapter
     dm = 'flipjump/interpreter/io_devices/device_memory.py'
     for meth, cm, n in (('read_word', 'get_word', 1), ('write_word', 'set_word', 2)):
-        f = repo.func(dm, f'NativeDeviceMemory.{meth}')
+        from ..pyfacts import read_through_locals as _rtl
+        f = _rtl(repo.func(dm, f'NativeDeviceMemory.{meth}'))           # a local naming the bound method reads as the method
         cs = [c for c in ast.walk(f) if isinstance(c, ast.Call) and dotted(c.func) == f'self._core_memory.{cm}']
         lo, hi = _fmt_counts(c_parse_format(cu, methods.get(cm, '')) if cm in methods else '')
         rep.check(bool(cs) and len(cs[0].args) == n == lo, 'C01.FFI', f'NativeDeviceMemory.{meth}',
